@@ -88,6 +88,11 @@ def run(ctx):
             e._ezsp_version = version
             app._ezsp = e
             e.add_callback(app.ezsp_callback_handler)
+
+            async def _set_mfg(code=None, **kw):
+                return [t.EmberStatus.SUCCESS]
+
+            e.setManufacturerCode = _set_mfg  # the override task then stays pending in its 180 s sleep
             cmds = e._protocol.COMMANDS
             im_id, _, im_rx = cmds["incomingMessageHandler"]
             tc_id, _, tc_rx = cmds["trustCenterJoinHandler"]
@@ -119,12 +124,33 @@ def run(ctx):
                     esc = type(x).__name__
                 rows.append((version, "msg", frame, v, list(rec), esc))
                 owns.append(OWN)
+                # the translation has no memory: the same callback again (a retransmission seen twice, a wrapped
+                # APS counter), or another message from the same sender with the same APS counter, is translated
+                # again, on its own
+                rr = rng.random()
+                if rr < 0.3:
+                    v2 = dict(v)
+                    if rr < 0.15:
+                        v2.update(mtype=rng.choice([0, 2, 4]), cluster=rng.getrandbits(16), payload=bytes(rng.getrandbits(8) for _ in range(rng.choice([0, 3, 20]))))
+                    frame2 = ezsplib.spec_header(version, rng.getrandbits(8), im_id) + build_incoming(version, im_rx, v2)
+                    rec.clear()
+                    esc = None
+                    try:
+                        e.frame_received(frame2)
+                    except BaseException as x:
+                        esc = type(x).__name__
+                    rows.append((version, "msg", frame2, v2, list(rec), esc))
+                    owns.append(OWN)
             for k in range(ctx.n(40, 300)):
                 v = dict(nwk=rng.getrandbits(16), ieee=[rng.getrandbits(8) for _ in range(8)], status=rng.choice([0, 1, 2, 3, 4, rng.randrange(256)]),
                          decision=rng.choice([0, 1, 2, 3, rng.randrange(256)]), parent=rng.getrandbits(16))
+                if rng.random() < 0.4:
+                    # vendors whose joins make the application override the manufacturer code for a while
+                    # (IEEE prefixes 54:EF:44 / 04:CF:8C; the frame carries the address low byte first); joins of
+                    # such devices follow each other while the override of the previous one is still pending
+                    v["ieee"][5:8] = rng.choice([[0x44, 0xEF, 0x54], [0x8C, 0xCF, 0x04]])
                 frame = ezsplib.spec_header(version, rng.getrandbits(8), tc_id) + build_tcjoin(tc_rx, v)
                 rec.clear()
-                app._mfg_id_task = None
                 esc = None
                 try:
                     e.frame_received(frame)
@@ -178,13 +204,16 @@ def run(ctx):
         spec = want or "none"
         if impl != spec or others:
             ctx.violation(f"v{version} {kind} callback: application produced {impl[:200]} (others {others[:2]}), expected {spec[:200]}",
-                          {"kind": kind, "version": version}, {"version": version, "kind": kind, "frame": hx(frame), "own": OWN, "spec": spec})
+                          {"kind": kind, "version": version},
+                          {"version": version, "kind": kind, "frame": hx(frame), "own": OWN, "spec": spec,
+                           # what the same application object was given before (the translation must not depend on it)
+                           "history": [hx(r[2]) for r in rows[max(0, i - 80):i] if r[0] == version]})
         if model is not None and model[i] != impl:
             ctx.corr_diff(f"v{version} {kind} callback translation differs", {"version": version, "frame": hx(frame)}, impl[:300], model[i][:300])
         if i % 400 == 0:
             ctx.sample({"version": version, "kind": kind, "frame": hx(frame)[:80], "impl": impl[:160], "model": model[i][:160] if model else None})
     ctx.cov["rule"] = ("for every version 4..14: incomingMessageHandler frames with message types 0..6 and undefined ones, random APS fields, payload lengths 0..100, RSSI extremes, the radio's own address changing between callbacks (in place or by replacing the node-info object); "
-                       "trustCenterJoinHandler frames over all status x decision classes; encoded by role from the version's schema order, pushed through the real receive path and the real callback handler")
+                       "every third callback followed by the same callback again or by another message of the same sender with the same APS counter; trustCenterJoinHandler frames over all status x decision classes, 40 % from the vendors whose join starts the manufacturer-code override, following each other while that override is pending; encoded by role from the version's schema order, pushed through the real receive path and the real callback handler")
     ctx.exhaustive = False
 
 
@@ -211,6 +240,17 @@ def replay(ctx, obj):
         e._ezsp_version = r["version"]
         app._ezsp = e
         e.add_callback(app.ezsp_callback_handler)
+
+        async def _set_mfg(code=None, **kw):
+            return [0]
+
+        e.setManufacturerCode = _set_mfg
+        for h in r.get("history", []):
+            try:
+                e.frame_received(bytes.fromhex(h))
+            except BaseException:  # noqa: BLE001
+                pass
+        rec.clear()
         e.frame_received(bytes.fromhex(r["frame"]))
     finally:
         loop.shutdown()
